@@ -114,6 +114,36 @@ fn main() {
     }
     let scale: f64 = std::env::var("VERIF_SCALE").ok().and_then(|s| s.parse().ok()).unwrap_or(1.0);
     let ctx = Ctx { prop: prop.clone(), tier, seed, threads, verif_dir, replay, started: Instant::now(), scale };
+    // A library call that never returns (a deadlock) would hang the check instead of giving a verdict:
+    // while scenarios run, a monitor watches the threads of this process (vstore/stall.rs) and ends the
+    // run with a violation when all of them are blocked without consuming CPU. Separately, a generous
+    // wall-clock watchdog ends a run that merely takes too long as inconclusive (exit 0).
+    #[cfg(all(feature = "full", not(miri)))]
+    if !prop.contains('-') {
+        let c1 = ctx.clone();
+        vstore::stall::spawn_monitor(std::time::Duration::from_secs(30), move |_label, detail| {
+            let stuck = par::running();
+            let mut out = report::Outcome::default();
+            out.evaluations = par::DONE.load(std::sync::atomic::Ordering::SeqCst);
+            out.violation(
+                format!("{}|library-call-never-returned|all-threads-blocked", c1.prop),
+                format!("after {} finished scenarios the scenario(s) {:?} never came back: {detail}", out.evaluations, stuck),
+                serde_json::json!({"scenario": stuck.first(), "stuck_scenarios": stuck}),
+            );
+            let code = report::finish(&c1, "exploration", "EMERGENCY END: the run was cut short by the stall monitor; counters of the finished scenarios are not included", out, vec![], vec![], serde_json::json!({}));
+            std::process::exit(code);
+        });
+        let c2 = ctx.clone();
+        let limit = std::time::Duration::from_secs(c2.tier.pick(45 * 60, 5 * 3600) as u64);
+        std::thread::spawn(move || {
+            std::thread::sleep(limit);
+            let mut out = report::Outcome::default();
+            out.evaluations = par::DONE.load(std::sync::atomic::Ordering::SeqCst);
+            out.inconclusive.push(format!("wall-clock watchdog: the check did not finish within {} s (scenarios still running: {:?}); no verdict", limit.as_secs(), par::running()));
+            let code = report::finish(&c2, "exploration", "EMERGENCY END: wall-clock watchdog", out, vec![], vec![], serde_json::json!({}));
+            std::process::exit(code);
+        });
+    }
     #[cfg(feature = "full")]
     {
         let code = props::dispatch(&ctx, &rest);
